@@ -50,7 +50,8 @@ def load():
         for key, (qn, c) in getattr(m, "FAITHFUL", {}).items():
             reg.func_tasks[key] = {"props": list(c.props), "qualname": qn, "contract": c}
         for key, d in getattr(m, "HEX_TASKS", {}).items():
-            reg.func_tasks[key] = {"props": list(d["contract"].props), "qualname": d.get("qualname", key), "contract": d["contract"], "builder": d["builder"]}
+            reg.func_tasks[key] = {"props": list(d["contract"].props), "qualname": d.get("qualname", key), "contract": d["contract"], "builder": d["builder"],
+                                   "natives": d.get("natives", {})}
         for q, nat in getattr(m, "TASK_NATIVES", {}).items():
             reg.func_tasks.setdefault(q, {"props": []})["natives"] = nat
         for k, v in getattr(m, "LOOPS", {}).items():
